@@ -273,6 +273,9 @@ class Interp:
                     k = pow2_split(c, len(x.bits))
                     if k is not None:
                         return ("iszero", shr(x, k), o == "Ge")
+                    if not x.is_const():
+                        raise Unsupported("comparison of a wire value with %d (0x%x): not a power-of-two group boundary, so it "
+                                          "cannot delimit a 7-bit varint width class" % (c, c))
         return ("opaque", op)
 
     # --------------------------------------------------------------------------------------------
